@@ -203,6 +203,14 @@ func genScenario(r *rand.Rand) scenario {
 	if r.Intn(15) == 0 {
 		sc.ClearFrom = "near-shift"
 	}
+	if r.Intn(15) == 0 {
+		// another address of the same shape: same length, same part lengths
+		if r.Intn(2) == 0 {
+			sc.ClearFrom = "same-length-domain"
+		} else {
+			sc.ClearTo = "same-length-domain"
+		}
+	}
 	sc.Mechs = []string{"plain", "plain", "scram", "scram", "both"}[r.Intn(5)]
 	sc.Info = r.Intn(5) < 3
 	sc.TLSInfo = sc.Info && r.Intn(2) == 0
@@ -355,12 +363,32 @@ func peerHeader(sc scenario, id string) string {
 		to = " to='" + foreignDomain + "'"
 	case "near-domain-shift", "near-local-shift":
 		to = " to='" + nearMiss(sc, sc.ClearTo) + "'"
+	case "same-length-domain":
+		o := originStr(sc)
+		i := strings.IndexByte(o, '@') + 1
+		to = " to='" + o[:i] + sameLength(o[i:]) + "'"
 	}
 	from := locationStr(sc)
 	if sc.ClearFrom == "near-shift" {
 		from = from[:len(from)-1] + "/" + from[len(from)-1:]
 	}
+	if sc.ClearFrom == "same-length-domain" {
+		from = sameLength(from)
+	}
 	return header(sc, " version='1.0' id='"+id+"' from='"+from+"'"+to)
+}
+
+// sameLength is another domain with the same number of octets in every part
+// (what an address stored in place over the expected one would need): the first
+// octet of the domainpart replaced.
+func sameLength(addr string) string {
+	b := []byte(addr)
+	if b[0] == 'q' {
+		b[0] = 'r'
+	} else {
+		b[0] = 'q'
+	}
+	return string(b)
 }
 
 // nearMiss is an address with the same octets as the session's own but with a
@@ -1800,6 +1828,8 @@ var fixedGroups = []func(c *core.Case){
 	func(c *core.Case) { fixedNear(c, scenario{ClearTo: "near-domain-shift"}) },
 	func(c *core.Case) { fixedNear(c, scenario{ClearTo: "near-local-shift"}) },
 	func(c *core.Case) { fixedNear(c, scenario{ClearFrom: "near-shift"}) },
+	func(c *core.Case) { fixedNear(c, scenario{ClearFrom: "same-length-domain"}) },
+	func(c *core.Case) { fixedNear(c, scenario{ClearTo: "same-length-domain"}) },
 	func(c *core.Case) {
 		fixedNear(c, scenario{ClearTo: "near-domain-shift", S2S: true, Location: domains[3]})
 	},
@@ -1906,7 +1936,7 @@ func Prop() *core.Prop {
 		"slice_reuse_first_session_ready_over_tls", "slice_reuse_later_session_forced_starttls",
 		"slice_reuse_groups_ws_framed", "ws_framed_sessions_negotiator", "ws_framed_sessions_newsession", "ws_framed_forced_starttls",
 		"real_ws_sessions_origin_http", "real_ws_sessions_origin_https", "real_ws_starttls_requested_origin_https", "real_ws_origin_pairs_compared",
-		"fixed_near_miss_header_groups", "clear_to_near-domain-shift", "clear_to_near-local-shift", "clear_from_near-shift",
+		"fixed_near_miss_header_groups", "clear_to_near-domain-shift", "clear_to_near-local-shift", "clear_from_near-shift", "clear_from_same-length-domain", "clear_to_same-length-domain",
 		"reuse_caller_config_compared_explicit-noname", "reuse_caller_config_compared_explicit-insecure", "reuse_caller_config_compared_explicit",
 		"fixed_several_features_groups_mechs_scram", "fixed_several_features_groups_mechs_both", "fixed_several_features_groups_mechs_plain",
 		"sessions_with_several_features_on_one_clear_list_mechs_scram", "repeated_sessions_compared", "in_tls_scram_exchanges_completed",
